@@ -23,7 +23,7 @@ GARBAGE = ('nan', 'huge', 'stale', 'inf', 'zero')
 LENGTHS = [1, 2, 3, 4, 5, 8, 9]
 
 TIERS = {
-    'C18': {'quick': {'runs': 20000, 'budget_s': 100, 'chunk': 50},
+    'C18': {'quick': {'runs': 14000, 'budget_s': 100, 'chunk': 50},
             'thorough': {'runs': 300000, 'budget_s': 1800, 'chunk': 200}},
 }
 
@@ -256,26 +256,11 @@ def execute(prop, plan, ctx):
                 try:
                     _call(plan, cfg, objs, op, xs, ys, eps, ctx, fired, S,
                           real_full)
-                except Violation as v:
-                    if real_full and inv_like:
-                        # one root cause, one fingerprint: the complex->real
-                        # transform that is not half-complex is constructed
-                        # but not implemented
-                        raise Violation(
-                            'C18', 'C18/inverse-unsupported/' + S,
-                            '{} of a transform on a real space with '
-                            'halfcomplex=False: {}'.format(op['obj'],
-                                                           v.message))
+                except Violation:
                     raise
         except (Violation, Reject, HarnessError):
             raise
         except Exception as e:
-            if real_full and inv_like:
-                raise Violation(
-                    'C18', 'C18/inverse-unsupported/' + S,
-                    '{} of a transform on a real space with '
-                    'halfcomplex=False: {} raised {}: {}'.format(
-                        op['obj'], t, type(e).__name__, str(e)[:160]))
             raise Violation('C18', 'C18/raise/{}/{}/{}'.format(
                 S, t, type(e).__name__),
                 '{} on {} ({}) raised {}: {} [cfg {}]'.format(
@@ -362,7 +347,7 @@ def _call(plan, cfg, objs, op, xs, ys, eps, ctx, fired, S, real_full):
                 '{}: differs from a fresh {} replica by {:.3g} (tol {:.3g}) '
                 '[cfg {}]'.format(what, impl, d, tol, cfg))
     # (3) the inverse recovers the input
-    if name in ('T', 'Tii') and not real_full:
+    if name in ('T', 'Tii'):
         with seams.allocator(gk, salt=55):
             back = objs['Ti'](y)
         ok, d = SP.close(back.asarray(), xa, tol)
